@@ -1,28 +1,44 @@
 #!/usr/bin/env python3
-"""usage: recheck_survivors.py MUTS.jsonl RES.jsonl — re-run the current checker (iscpcheck sweep) on the mutants
-that survived both the test suite and the checker at sweep time; prints which are caught now and which still survive."""
-import sys, json, os, subprocess, shutil, re
+"""usage: recheck_survivors.py MUTS.jsonl RES.jsonl BASEDIR OUT.txt [workers] — re-run the current checker (iscpcheck sweep)
+on the mutants that survived both the test suite and the checker at sweep time. BASEDIR is a checkout of the commit the
+mutants were generated from. Prints NOW-CAUGHT / SURVIVES lines."""
+import sys, json, os, subprocess, shutil, re, threading, queue
 muts = {json.loads(l)["id"]: json.loads(l) for l in open(sys.argv[1])}
 res = [json.loads(l) for l in open(sys.argv[2])]
+base_dir, out_path = sys.argv[3], sys.argv[4]
+workers = int(sys.argv[5]) if len(sys.argv) > 5 else 4
 surv = [r for r in res if r["status"] == "survived"]
-wd = "/tmp/mutw/recheck"
-shutil.rmtree(wd, ignore_errors=True)
+chk = "/tmp/mutw/iscpcheck_recheck"
 os.makedirs("/tmp/mutw", exist_ok=True)
-subprocess.check_call(["rsync", "-a", "--exclude", ".git", "--exclude", "SEED*", "/repo/", wd + "/"])
+shutil.copy("/verif/bin/iscpcheck", chk)
 env = dict(os.environ, GOFLAGS="-mod=mod", GOPROXY="off")
 norm = lambda l: re.sub(r" @ .*$", "", l.strip())
-base = set(norm(l) for l in subprocess.run([os.environ.get("CHK","/verif/bin/iscpcheck"), "sweep", "--repo", wd], capture_output=True, text=True, env=env).stdout.splitlines() if l.strip())
-still = []
-for r in surv:
-    m = muts[r["id"]]
-    path = os.path.join(wd, m["file"])
-    orig = open(path, "rb").read()
-    try:
-        open(path, "wb").write(orig[:m["start"]] + m["new"].encode() + orig[m["end"]:])
-        out = subprocess.run([os.environ.get("CHK","/verif/bin/iscpcheck"), "sweep", "--repo", wd], capture_output=True, text=True, env=env).stdout
-        fired = sorted(set(norm(l) for l in out.splitlines() if l.strip()) - base)
-    finally:
-        open(path, "wb").write(orig)
-    tag = "NOW-CAUGHT" if fired else "SURVIVES  "
-    print(tag, m["id"], m["op"], f'{m["file"]}:{m["line"]}', m["func"][:28], "|", m["desc"][:70], "=>", "; ".join(f.split(" ")[1] for f in fired[:3]))
-shutil.rmtree(wd, ignore_errors=True)
+q = queue.Queue()
+for r in surv: q.put(r)
+lock = threading.Lock()
+out = open(out_path, "w")
+def worker(k):
+    wd = f"/tmp/mutw/recheck{k}"
+    shutil.rmtree(wd, ignore_errors=True)
+    subprocess.check_call(["rsync", "-a", "--exclude", ".git", "--exclude", "SEED*", base_dir + "/", wd + "/"])
+    base = set(norm(l) for l in subprocess.run([chk, "sweep", "--repo", wd], capture_output=True, text=True, env=env).stdout.splitlines() if l.strip())
+    while True:
+        try: r = q.get_nowait()
+        except queue.Empty: break
+        m = muts[r["id"]]
+        path = os.path.join(wd, m["file"])
+        orig = open(path, "rb").read()
+        try:
+            open(path, "wb").write(orig[:m["start"]] + m["new"].encode() + orig[m["end"]:])
+            o = subprocess.run([chk, "sweep", "--repo", wd], capture_output=True, text=True, env=env).stdout
+            fired = sorted(set(norm(l) for l in o.splitlines() if l.strip()) - base)
+        finally:
+            open(path, "wb").write(orig)
+        tag = "NOW-CAUGHT" if fired else "SURVIVES  "
+        with lock:
+            out.write(f'{tag} {m["id"]} {m["op"]} {m["file"]}:{m["line"]} {m["func"][:28]} | {m["desc"][:70]} => {"; ".join(f.split(" ")[1] for f in fired[:3])}\n'); out.flush()
+    shutil.rmtree(wd, ignore_errors=True)
+ths = [threading.Thread(target=worker, args=(k,)) for k in range(workers)]
+for t in ths: t.start()
+for t in ths: t.join()
+print("done")
